@@ -101,6 +101,49 @@ fn build(tier: Tier) -> Box<dyn Check> {
         corpus.push((s.to_string(), 0));
     }
     fams.push(("corpus".to_string(), Space::of(corpus)));
+    // confusable keys: pairs (and one triple) that any lossy treatment of keys — truncation at a length,
+    // case folding, trimming, normalisation, numeric reading, escaping — would merge or tie
+    let mut conf: Vec<(String, usize)> = Vec::new();
+    let mut groups: Vec<Vec<String>> = Vec::new();
+    for n in [7usize, 8, 15, 16, 31, 32, 33, 63, 64, 65, 128, 255, 256, 1000] {
+        let pre = "a".repeat(n);
+        groups.push(vec![format!("\"{}1\"", pre), format!("\"{}2\"", pre)]);
+        let pre = "é😀".repeat(n / 2 + 1);
+        groups.push(vec![format!("\"{}x\"", pre), format!("\"{}y\"", pre), format!("\"{}\"", pre)]);
+    }
+    for g in [
+        &["\"p\"", "\"P\""][..],
+        &["\"p\"", "\"p \"", "\" p\""],
+        &["\"é\"", "\"e\u{301}\"", "\"e\""],
+        &["\"1\"", "\"1.0\"", "\"01\""],
+        &["\"true\"", "\"TRUE\"", "true"],
+        &["\"a\nb\"", "\"a\"", "\"a\\nb\""],
+        &["\"\\\"", "\"\\\\\""],
+        &["\"'\"", "\"''\""],
+        &["\"ß\"", "\"ss\"", "\"SS\""],
+        &["\"İ\"", "\"i\u{307}\"", "\"i\""],
+        &["\"\u{0}\"", "\"\"", "\" \""],
+        &["\"k\u{feff}\"", "\"k\"", "\"k\u{200b}\""],
+    ] {
+        groups.push(g.iter().map(|s| s.to_string()).collect());
+    }
+    for g in &groups {
+        let k = g.len();
+        // every insertion order of the group
+        let mut perms: Vec<Vec<usize>> = vec![vec![]];
+        for _ in 0..k {
+            perms = perms.into_iter().flat_map(|p| (0..k).filter(|i| !p.contains(i)).map(|i| { let mut q = p.clone(); q.push(i); q }).collect::<Vec<_>>()).collect();
+        }
+        for perm in perms {
+            let build: String = perm.iter().map(|&i| format!("let x at {} be \"v{}\"\n", g[i], i)).collect();
+            for op in ["join x\nsay x\n", "join x with \",\"\nsay x\n", "say x at x\n", "put x into y\njoin y into z\nsay z\nsay x is y\n"] {
+                conf.push((format!("{}put x into dd\n{}", build, op), k));
+            }
+            let reads: String = g.iter().map(|key| format!("say x at {}\n", key)).collect();
+            conf.push((format!("{}put x into dd\n{}", build, reads), k));
+        }
+    }
+    fams.push(("confusable-keys".to_string(), Space::of(conf)));
     // many keys: the table rehashes on the way (orders are not exhaustible: run under every seed up to the cap)
     let mut many = Vec::new();
     for n in [5usize, 8, 9, 16, 17, 33] {
